@@ -22,7 +22,7 @@ let next_dist st =
   let vtext = next_str st in
   let meta = next_bool st in
   let reqs = next_list st next_req in
-  { dname = name; dversion = v; dvtext = vtext; dreqs = reqs; dmeta = meta }
+  { dname = name; dversion = v; dvtext = vtext; dreqs = reqs; dmeta = meta; dsource = false }
 
 (* env: list of (marker, table of (extra-opt, bool), extras named), then the iteration order of extra-opts; every list is count-prefixed *)
 let next_env st =
